@@ -229,11 +229,11 @@ def _sequence(fl, enabled, threshold, nmsg, a1, a2, a3, jsonp, order):
         base_server.zlib, base_server.gzip = saved
 
 
-@cond(quick=dict(N0=2, N=2, A=1, timeout=170, parts=dict(FL=[0, 1], ORD=[0, 1, 2], EN=[0, 1])),
-      thorough=dict(N0=1, N=3, A=2, timeout=1500, parts=dict(FL=[0, 1], ORD=[0, 1, 2], EN=[0, 1])))
+@cond(quick=dict(N0=2, N=2, A=1, timeout=240, parts=dict(FL=[0, 1], ORD=[0, 1, 2], EN=[0, 1], J=[0, 1])),
+      thorough=dict(N0=1, N=3, A=2, timeout=1500, parts=dict(FL=[0, 1], ORD=[0, 1, 2], EN=[0, 1], J=[0, 1])))
 def labelling_sequences(fl: int, enabled: bool, threshold: int, nmsg: int, a1: int, a2: int, a3: int, jsonp: bool, order: int) -> str:
     """
-    pre: fl == P.FL and order == P.ORD and enabled == bool(P.EN) and P.N0 <= nmsg <= P.N and 1 <= a1 <= P.A
+    pre: fl == P.FL and order == P.ORD and enabled == bool(P.EN) and jsonp == bool(P.J) and P.N0 <= nmsg <= P.N and 1 <= a1 <= P.A
     pre: 0 <= a2 < len(ACCEPT) and 0 <= a3 < P.A and (P.A > 1 or a3 == 0)
     post: _ == ''
     """
